@@ -53,6 +53,7 @@ def run_measure(R, cfg):
         mid = vs(ts.step_type) == 1
         return [("MID step strictly increases the measure", mid.implies(m1 >= m0 + 1)),
                 (f"measure(S') <= structural bound {bound}", m1 <= bound),
+                (f"a successor whose measure reaches the structural bound {bound} is terminal (the episode cannot run past the horizon)", (m1 >= bound).implies(vs(ts.step_type) == 2)),
                 ]
     if H.BMC:
         from checks import bmc
@@ -75,6 +76,8 @@ def jobs(tier, seed):
                 # with it in the default construction (MMST: the generator's walk-buffer length max_step)
                 js.append((f"{cfg}/T={T}/{','.join(f'{k}={v}' for k, v in over.items())}", "checks.C11", "run_tl", {"cfg": cfg, "T": T, "over": over}))
         elif cls.measure is not base.Harness.measure:
-            for cfg in cfgs:
+            # C11_HORIZON_EXTRA: configurations in which the horizon is decoupled from a size that coincides with it by default
+            # (MultiCVRP: the documented horizon 2*num_customers vs. num_vehicles == 2 everywhere in the defaults)
+            for cfg in cfgs + list(getattr(cls, "C11_HORIZON_EXTRA", [])):
                 js.append((f"{cfg}/horizon", "checks.C11", "run_measure", {"cfg": cfg}))
     return js
